@@ -245,6 +245,96 @@ class Explorer:
         neg = f_or(*[f_cmp(p, "!=") for p in nz[:24]])
         return self._discharge(neg, label, kind, detail, rest=nz[24:])
 
+    def require_zero_guided(self, residues, claim_violated, build_exact, label, kind="identity", detail=None):
+        """obligation whose exact polynomial form is expensive: `residues` are small polynomials whose vanishing
+        implies the claim.  unsat(PC & some residue != 0) discharges it; a model is checked numerically against the
+        claim itself (claim_violated(env)); only if the model does not violate the claim the exact obligation is built."""
+        nz = []
+        for p in residues:
+            for q in ((p.re, p.im) if isinstance(p, core.SC) else (p,)):
+                if q.t:
+                    q = core.clear_denominators(q)
+                    if q.t:
+                        nz.append(q)
+        if not nz:
+            return self.require_zero([], label, kind, detail)
+        uniq = {}
+        for p in nz:
+            uniq.setdefault(p.key(), p)
+        nz = sorted(uniq.values(), key=lambda p: p.n_terms())
+        self.tot["obligations"] += 1
+        tried = 0
+        for start in range(0, len(nz), 24):
+            neg = f_or(*[f_cmp(p, "!=") for p in nz[start:start + 24]])
+            fs = self._base() + [neg]
+            r, model = smt.solve(fs + list(core.CTX.physical), self.timeout_ms, seed=self.seed)
+            if r == "unsat" and core.CTX.physical:
+                r, model = smt.solve(fs, self.timeout_ms, seed=self.seed)
+                if r == "sat":
+                    self.tot["nonphysical_models"] = self.tot.get("nonphysical_models", 0) + 1
+                    self.flags.add("nonphysical_model")
+                    self.events.append(("nonphysical_model", label, None))
+                    return None
+            if r == "unknown":
+                m = self.sample_model(neg)
+                if m is not None:
+                    r, model = "sat", m
+            if r == "sat":
+                pm = self.polish(model, neg)
+                if pm is not None:
+                    model = pm
+                env = self._float_env(model)
+                try:
+                    bad = claim_violated(env)
+                except (KeyError, ZeroDivisionError, OverflowError):
+                    bad = False
+                if bad:
+                    self.tot["violated"] += 1
+                    v = Violation(label, kind, model, detail)
+                    v.inputs = self.concretise(model)
+                    v.choices = list(self.choices)
+                    self.violations.append(v)
+                    return False
+                tried += 1
+                break
+            if r == "unknown":
+                tried += 1
+                break
+        if tried == 0:
+            self.tot["discharged_by_solver"] += 1
+            return True
+        # residues differ but the claim held at the model (or solver unknown): decide the exact obligation
+        self.tot["obligations"] -= 1
+        return self.require_zero(build_exact(), label, kind, detail)
+
+    def _float_env(self, model):
+        import math
+
+        ctx = core.CTX
+        env = {}
+        for v in range(len(ctx.names)):
+            val = (model or {}).get(v)
+            if val is not None:
+                env[v] = float(val)
+        for v in range(len(ctx.names)):
+            if v in env:
+                continue
+            k = ctx.kind[v]
+            try:
+                if k == "alg":
+                    env[v] = math.sqrt(float(ctx.rules[v].cval()))
+                elif v in ctx.sqrtdef:
+                    env[v] = math.sqrt(max(0.0, float(ctx.sqrtdef[v].eval(env))))
+                elif v in ctx.invdef:
+                    env[v] = 1.0 / float(ctx.invdef[v].eval(env))
+                elif k == "cos":
+                    env[v] = 1.0
+                else:
+                    env[v] = 0.0
+            except (ZeroDivisionError, KeyError, OverflowError):
+                env[v] = 0.0
+        return env
+
     def require(self, f, label, kind="assert", detail=None):
         """obligation: formula f holds on this path"""
         self.tot["obligations"] += 1
